@@ -11,6 +11,8 @@ pub mod gen;
 pub mod snap;
 pub mod envdrive;
 pub mod shufstats;
+pub mod agentdrive;
+pub mod simcheck;
 
 /// splitmix64: the harness's own generator
 #[derive(Clone)]
